@@ -153,8 +153,8 @@ class LineFault(object):
 # values
 # --------------------------------------------------------------------------
 
-def make_value(algopy, kind, val):
-    a = numpy.array(val, dtype=float)
+def make_value(algopy, kind, val, dtype=None):
+    a = numpy.array(val, dtype=int if dtype == 'int' else float)
     if kind == 'nd':
         return a
     return algopy.UTPM(a)
@@ -247,6 +247,7 @@ class Client(object):
         self.sealed = False
         self.slots = {}
         self.last_out = None      # the objects the last completed forward evaluation returned
+        self.last_ybars = None    # the seed objects of the last bare reverse sweep
 
 
 class Sim(object):
@@ -257,6 +258,7 @@ class Sim(object):
         self.B = programs.AlgopyBackend(self.al)
         self.clients = [Client(i, c) for i, c in enumerate(run['clients'])]
         self.events = []
+        self.retained = []        # results handed out by completed calls: (seq, client, arrays, bytes)
         self.line = LineFault(os.path.join(env.REPO, 'algopy') + os.sep)
         if any(s.get('fault') and s['fault']['kind'].startswith('node') for s in run['plan']):
             install_fault_seam(self.al)
@@ -280,7 +282,7 @@ class Sim(object):
         op = step['op']
         c = step['c']
         for i, (b, a) in enumerate(zip(before, after)):
-            if i == c and op in ('new_graph', 'rec'):
+            if i == c and op in ('new_graph', 'rec', 'reset'):
                 continue
             if b != a:
                 what = 'I3' if op == 'rec_off' else 'I2'
@@ -291,6 +293,59 @@ class Sim(object):
                 for msg in check_graph_order(cl.cg, self.F):
                     bad.append('I1: graph %d: %s' % (cl.idx, msg))
         return bad
+
+    # ---- results that were handed out stay as they were (O6.stable) ---------------
+    def _arrays(self, raw):
+        out = []
+        stack = [raw]
+        while stack:
+            r = stack.pop()
+            if isinstance(r, (list, tuple)):
+                stack.extend(r)
+            elif isinstance(r, numpy.ndarray):
+                out.append(r)
+            elif isinstance(getattr(r, 'data', None), numpy.ndarray) and type(r).__name__ in ('UTPM', 'UTP'):
+                out.append(r.data)
+        return out
+
+    def retain(self, seq, cidx, raw):
+        arrs = self._arrays(raw)
+        if not arrs:
+            return
+        self.retained.append([seq, cidx, arrs, [a.tobytes() for a in arrs]])
+        mine = [r for r in self.retained if r[1] == cidx]
+        if len(mine) > 4:
+            self.retained.remove(mine[0])
+
+    def caller_writes(self, obj):
+        """The caller itself is about to overwrite `obj` in place: whatever shares memory with
+        it is no longer expected to stay the same."""
+        target = obj.data if not isinstance(obj, numpy.ndarray) else obj
+        self.retained = [r for r in self.retained
+                         if not any(numpy.shares_memory(a, target) for a in r[2])]
+
+    def check_retained(self, ev):
+        keep = []
+        for r in self.retained:
+            if all(a.tobytes() == b for a, b in zip(r[2], r[3])):
+                keep.append(r)
+            else:
+                ev.setdefault('unstable', []).append({'result_of_seq': r[0], 'client': r[1]})
+        self.retained = keep
+
+    def reset_client(self, c):
+        """The caller drops a graph and everything that refers to it (and will record the same
+        program again): the old graph is garbage, its address may be reused."""
+        import gc
+        self.retained = [r for r in self.retained if r[1] != c.idx]
+        c.cg = None
+        c.regs = None
+        c.ip = 0
+        c.sealed = False
+        c.slots = {}
+        c.last_out = None
+        c.last_ybars = None
+        gc.collect()
 
     # ---- steps -------------------------------------------------------------
     def step_new_graph(self, c, step, ev):
@@ -311,7 +366,7 @@ class Sim(object):
             c.regs = []
             for v in rec['vals']:
                 n0 = len(c.cg.functionList)
-                f = F(make_value(self.al, rec['kind'], v))
+                f = F(make_value(self.al, rec['kind'], v, rec.get('dtype')))
                 c.regs.append(f)
                 if not any(g is f for g in c.cg.functionList[n0:]):
                     inv.append('I4: wrapped input was not recorded in its graph')
@@ -387,6 +442,7 @@ class Sim(object):
                 pass
             elif mode == 'overwrite' and obj is not None and self._compatible(obj, spec):
                 a = numpy.array(spec['val'], dtype=float)
+                self.caller_writes(obj)
                 if spec['kind'] == 'nd':
                     obj[...] = a
                 else:
@@ -415,7 +471,7 @@ class Sim(object):
                 c.cg.pushforward(xs)
                 out = [f.x for f in c.cg.dependentFunctionList]
             c.last_out = list(out)
-            return enc(out)
+            return enc(out), out
         return args, thunk, xs
 
     def call_rev(self, c, step):
@@ -429,11 +485,24 @@ class Sim(object):
                 ybars.append(self.al.UTPM(dense_seed(step['subseed'] + len(ybars), shp)))
             else:
                 ybars.append(dense_seed(step['subseed'] + len(ybars), numpy.shape(x)))
+        old = c.last_ybars
+        if step.get('reuse_seed') and old is not None and len(old) == len(ybars) and all(
+                type(o) is type(n) and numpy.shape(getattr(o, 'data', o)) == numpy.shape(getattr(n, 'data', n))
+                for o, n in zip(old, ybars)):
+            # the documented idiom: the same seed object, overwritten in place between sweeps
+            for o, n in zip(old, ybars):
+                if isinstance(o, self.al.UTPM):
+                    o.data[...] = n.data
+                else:
+                    o[...] = n
+            ybars = old
+        c.last_ybars = ybars
         args = [enc(y) for y in ybars]
 
         def thunk():
             c.cg.pullback(ybars)
-            return enc([f.xbar for f in c.cg.independentFunctionList])
+            out = [f.xbar for f in c.cg.independentFunctionList]
+            return enc(out), out
         return args, thunk, ybars
 
     def call_drv(self, c, step):
@@ -469,11 +538,12 @@ class Sim(object):
                     self.line.start(line_n, fault['exc'])
                 try:
                     with env.cpu_limit():
-                        out = thunk()
+                        out, raw = thunk()
                 finally:
                     if line_n is not None:
                         self.line.stop()
             ev['out'] = ['ok', out]
+            self.retain(step['seq'], c.idx, raw)
         except BaseException as e:  # noqa: injected interrupts are BaseException
             if isinstance(e, (SystemExit, GeneratorExit)):
                 raise
@@ -567,6 +637,8 @@ class Sim(object):
                     if c.cg is None:
                         raise PlanInvalid('toff before new_graph')
                     c.cg.trace_off()
+                elif op == 'reset':
+                    self.reset_client(c)
                 elif op in ('fwd', 'rev', 'drv'):
                     self.step_call(c, step, ev)
                 else:
@@ -583,6 +655,7 @@ class Sim(object):
             ev['lens'] = self.lens()
             ev['ptr'] = self.ptr()
             ev['inv'].extend(self.invariants(before, step))
+            self.check_retained(ev)
             self.events.append(ev)
             if ev.get('timeout'):
                 # a call that does not return: nothing sensible can follow
@@ -617,7 +690,7 @@ def driver_thunk(algopy, cg, step):
             out = cg.vec_hess_vec(w, x, v)
         else:
             raise ValueError(name)
-        return enc(out)
+        return enc(out), out
     return thunk
 
 
